@@ -67,6 +67,9 @@ func (s *Store) RHP4DebitAccount(account proto4.Account, usage proto4.Usage) err
 // the contract.
 func (s *Store) RHP4CreditAccounts(deposits []proto4.AccountDeposit, contractID types.FileContractID, revision types.V2FileContract, usage proto4.Usage) (balances []types.Currency, err error) {
 	err = s.transaction(func(tx *txn) error {
+		// the transaction may be retried: start from an empty result
+		balances = balances[:0]
+
 		getBalanceStmt, err := tx.Prepare(`SELECT balance FROM accounts WHERE account_id=$1`)
 		if err != nil {
 			return fmt.Errorf("failed to prepare get balance statement: %w", err)
@@ -147,6 +150,9 @@ func (s *Store) RHP4CreditAccounts(deposits []proto4.AccountDeposit, contractID 
 // not exist, the balance at that index will be types.ZeroCurrency.
 func (s *Store) RHP4AccountBalances(accounts []proto4.Account) (balances []types.Currency, err error) {
 	err = s.transaction(func(tx *txn) error {
+		// the transaction may be retried: start from an empty result
+		balances = balances[:0]
+
 		stmt, err := tx.Prepare(`SELECT balance FROM accounts WHERE account_id=$1`)
 		if err != nil {
 			return fmt.Errorf("failed to prepare get balance statement: %w", err)
@@ -260,6 +266,9 @@ func (s *Store) DebitAccount(accountID rhp3.Account, usage accounts.Usage) error
 // Accounts returns all accounts in the database paginated.
 func (s *Store) Accounts(limit, offset int) (acc []accounts.Account, err error) {
 	err = s.transaction(func(tx *txn) error {
+		// the transaction may be retried: start from an empty result
+		acc = acc[:0]
+
 		rows, err := tx.Query(`SELECT account_id, balance, expiration_timestamp FROM accounts LIMIT $1 OFFSET $2`, limit, offset)
 		if err != nil {
 			return err
@@ -287,6 +296,9 @@ INNER JOIN contracts c ON c.id=caf.contract_id
 WHERE a.account_id=$1`
 
 	err = s.transaction(func(tx *txn) error {
+		// the transaction may be retried: start from an empty result
+		srcs = srcs[:0]
+
 		rows, err := tx.Query(query, encode(account))
 		if err != nil {
 			return err
